@@ -430,6 +430,9 @@ impl BitVector for Bvd {
     }
 
     fn prepend<B: BitVector>(&mut self, prefix: &B) {
+        if prefix.is_empty() {
+            return;
+        }
         self.resize(self.length + prefix.len(), Bit::Zero);
         *self <<= prefix.len();
         let last = prefix.int_len::<u64>() - 1;
